@@ -69,7 +69,7 @@ func htmlUnescape5(s string) string {
 }
 
 // c17Judge returns "" when the output satisfies the filter's promise for this input.
-func c17Judge(filter, in, out string) (verdict string, judged bool) {
+func c17Judge(filter, in, out, param string) (verdict string, judged bool) {
 	switch filter {
 	case "escape", "e":
 		if strings.ContainsAny(out, "<>\"'") {
@@ -214,7 +214,7 @@ func c17Judge(filter, in, out string) (verdict string, judged bool) {
 		return "", true
 	case "removetags":
 		want := in
-		for _, tag := range []string{"a", "b"} {
+		for _, tag := range strings.Split(param, ",") {
 			want = strings.NewReplacer("</"+tag+"/>", "", "</"+tag+">", "", "<"+tag+"/>", "", "<"+tag+">", "").Replace(want)
 		}
 		want = strings.TrimSpace(want)
@@ -241,7 +241,7 @@ func newC17Runner() (*c17Runner, error) {
 	for _, f := range c17Filters {
 		src := "{% autoescape off %}{{ v|" + f + " }}{% endautoescape %}"
 		if f == "removetags" {
-			src = "{% autoescape off %}{{ v|removetags:\"a,b\" }}{% endautoescape %}"
+			src = "{% autoescape off %}{{ v|removetags:p }}{% endautoescape %}"
 		}
 		t, err := set.FromString(src)
 		if err != nil {
@@ -252,10 +252,26 @@ func newC17Runner() (*c17Runner, error) {
 	return r, nil
 }
 
+var c17RemovetagsParams = []string{"a,b", "B", "b", "A,i", "a"}
+
 func (r *c17Runner) check(c *C, filter, in string) bool {
+	if filter == "removetags" {
+		// the named tags are case-sensitive single letters; several parameter sets per input,
+		// so that a result can never depend on an earlier call
+		for _, p := range c17RemovetagsParams {
+			if !r.checkP(c, filter, in, p) {
+				return false
+			}
+		}
+		return true
+	}
+	return r.checkP(c, filter, in, "")
+}
+
+func (r *c17Runner) checkP(c *C, filter, in, pstr string) bool {
 	var param *pongo2.Value
 	if filter == "removetags" {
-		param = pongo2.AsValue("a,b")
+		param = pongo2.AsValue(pstr)
 	}
 	v, err := pongo2.ApplyFilter(filter, pongo2.AsValue(in), param)
 	c.Eval(1)
@@ -264,15 +280,15 @@ func (r *c17Runner) check(c *C, filter, in string) bool {
 		return false
 	}
 	out := v.String()
-	verdict, judged := c17Judge(filter, in, out)
+	verdict, judged := c17Judge(filter, in, out, pstr)
 	if !judged {
 		c.Unjudged()
 	} else if verdict != "" {
-		c.Fail("promise-broken", D{"filter": filter, "input": q(in), "output": q(out), "why": verdict, "route": "ApplyFilter"})
+		c.Fail("promise-broken", D{"filter": filter, "param": pstr, "input": q(in), "output": q(out), "why": verdict, "route": "ApplyFilter"})
 		return false
 	}
 	// template route must agree
-	tout, xerr := r.tpls[filter].Execute(pongo2.Context{"v": in})
+	tout, xerr := r.tpls[filter].Execute(pongo2.Context{"v": in, "p": pstr})
 	c.Eval(1)
 	if xerr != nil || tout != out {
 		c.Fail("routes-disagree", D{"filter": filter, "input": q(in), "ApplyFilter": q(out), "template": q(tout), "template_err": errStr(xerr)})
@@ -292,7 +308,7 @@ func (r *c17Runner) check(c *C, filter, in string) bool {
 }
 
 func c17RandString(r *Rng) string {
-	pool := []string{"<", ">", "&", "'", "\"", "\\", "/", "a", "B", ";", "#", " ", "&amp;", "&lt;", "&gt", "&#39;", "&quot;", "<a>", "</a>", "<b>", "</b>", "<br>", "<br/>", "<a/>", "<ab>", "<p class=\"x\">", "<<", ">>", "\\n", "\\r", "\\\\", "\\'", "\n", "\r", "\t", "é", "ß", "日本", "😀", "𝄞", " ", "�", "\xff", "\xc3", "\xed\xa0\x80", "%", "+", "?", "=", "x y", "%41", "~", "-", "_", ".", "@", "http://x.y/?a=b&c=d", "<script>alert(1)</script>", "\x00", "\x01"}
+	pool := []string{"<", ">", "&", "'", "\"", "\\", "/", "a", "B", ";", "#", " ", "&amp;", "&lt;", "&gt", "&#39;", "&quot;", "<a>", "</a>", "<b>", "</b>", "<br>", "<br/>", "<a/>", "<ab>", "<A>", "</B>", "<B>", "<i>", "</i>", "<I/>", "<p class=\"x\">", "<<", ">>", "\\n", "\\r", "\\\\", "\\'", "\n", "\r", "\t", "é", "ß", "日本", "😀", "𝄞", " ", "�", "\xff", "\xc3", "\xed\xa0\x80", "%", "+", "?", "=", "x y", "%41", "~", "-", "_", ".", "@", "http://x.y/?a=b&c=d", "<script>alert(1)</script>", "\x00", "\x01"}
 	n := r.Intn(12)
 	var sb strings.Builder
 	for i := 0; i < n; i++ {
